@@ -6,14 +6,19 @@ variable {oob : IntKind → Num → Int} {chk : Bool}
 
 /-! ### checkArg -/
 
-theorem convertNumber_ty_ne_none (x : Num) (t : Ty) : (convertNumber oob x t).ty ≠ none := by
-  unfold convertNumber
-  split
-  · split
+/-- whatever the parameter type: a converted number is a plain `intN`/`uintN`/`float32`/`float64` -/
+theorem convertNumber_ty (x : Num) (t : Ty) :
+    ∃ t', (convertNumber oob x t).ty = some t' ∧ t'.isNumeric = true := by
+  induction t with
+  | int k =>
+    refine ⟨.int k, ?_, rfl⟩
+    simp only [convertNumber]
+    split
     · split <;> simp [Val.ty]
     · simp [Val.ty]
-  · simp [Val.ty]
-  · simp [Val.ty]
+  | named id u ih => simpa [convertNumber] using ih
+  | f32 => exact ⟨.f32, rfl, rfl⟩
+  | _ => exact ⟨.f64, rfl, rfl⟩
 
 theorem checkArg_of_not_f64 {p : Ty} {a : Val} (hna : ∀ x, a ≠ .f64 x) :
     checkArg oob p a =
@@ -32,7 +37,13 @@ theorem checkArg_accept_compatible {p : Ty} {a v : Val} (h : checkArg oob p a = 
     unfold compatible
     simp only
     cases p <;> simp_all [convertNumber, Ty.isNumeric, Val.ty, Ty.isInterface, Ty.list]
-    split at h <;> simp_all
+    · split at h <;> simp_all
+    · rename_i id u
+      obtain ⟨t', ht', hn⟩ := convertNumber_ty (oob := oob) x u
+      rw [ht'] at h
+      split at h
+      · rename_i heq; simp at heq; subst heq; simp [Ty.isNumeric] at hn
+      · simp at h
   · have hna : ∀ x, a ≠ .f64 x := fun x hx => hf ⟨x, hx⟩
     rw [checkArg_of_not_f64 hna] at h
     have hc : compatible p a = (a.ty == some p || p == .list) := by
